@@ -78,7 +78,7 @@ def gen_c02(r, big=False):
     ns = r.randint(1, 2)
     lines = []
     for i in range(ns):
-        lines.append("obj sem s%d %d %d" % (i, r.choice([0, 0, 1, 2, 3]), r.choice([1, 1, 0])))
+        lines.append("obj sem s%d %d %d" % (i, r.choice([0, 0, 1, 2, 3]), 0 if r.random() < 0.3 else 1))
     n = r.randint(2, 6 if big else 4)
     names = ["T%d" % i for i in range(1, n + 1)]
     scripts = []
